@@ -26,10 +26,11 @@ class AstToSqlAlchemyOrmVisitor(common._CommonVisitors, visitor.NodeVisitor):
 
     def visit_Identifier(self, node: ast.Identifier) -> ColumnClause:
         ":meta private:"
-        try:
-            return getattr(self.root_model, node.name)
-        except AttributeError:
+        attr = getattr(self.root_model, node.name, None)
+        if not isinstance(attr, InstrumentedAttribute):
+            # Also catches class attributes that are no mapped fields, e.g. `metadata`
             raise ex.InvalidFieldException(node.name)
+        return attr
 
     def visit_Attribute(self, node: ast.Attribute) -> ColumnClause:
         ":meta private:"
@@ -44,10 +45,10 @@ class AstToSqlAlchemyOrmVisitor(common._CommonVisitors, visitor.NodeVisitor):
 
         # We'd like to reference the column on the related class:
         owner_cls = prop_inspect.entity.class_
-        try:
-            return getattr(owner_cls, node.attr)
-        except AttributeError:
+        attr = getattr(owner_cls, node.attr, None)
+        if not isinstance(attr, InstrumentedAttribute):
             raise ex.InvalidFieldException(node.attr)
+        return attr
 
     def visit_Compare(self, node: ast.Compare) -> BinaryExpression:
         ":meta private:"
